@@ -1,4 +1,5 @@
 import Srtla.Model.Select
+import Srtla.Model.Sys
 import Srtla.Lemmas.SelectFrame
 /-!
 # C12 — the stall guard is a routing penalty only; off means baseline
@@ -19,6 +20,10 @@ bit-for-bit against the real function by component `sel`.
   pull flag, heard-mark, pull counter all zero).  `C12_off_noninterference` is the inductive form:
   two states that agree up to stall history get the same decision and still agree afterwards, so the
   statement extends to every history of selections, state changes and toggles.
+
+* Which `SrtlaConnection` fields are inside / outside `Frame` is spelled out in the section
+  "What is inside and what is outside `Frame`" below; `C12_frame_shell` is the full-connection form
+  for the shell model (`Model/Sys.lean` `runSelect`).
 
 All theorems hold for every scalar type `F` and every `[Scalar F]` instance (float comparisons are
 opaque Booleans): in particular for the `Float` instance the compiled driver runs.
@@ -119,6 +124,81 @@ theorem C12_off_noninterference (ls ls' : List (SLink F)) (last : Option Nat) (n
   have he : ∀ l : List (SLink F), l.map eraseStall = (l.map forget).map eraseStall := by
     intro l; rw [List.map_map]; exact List.map_congr_left fun c _ => rfl
   rw [he (selectIdx ls last now cfg).1, he (selectIdx ls' last now cfg).1, hf]
+
+/-! ## What is inside and what is outside `Frame`
+
+`Frame` has the 23 fields of the selection view `SLink` that a routing decision must not touch.
+The real `select_connection_idx` receives `&mut [SrtlaConnection]`; in terms of the Rust struct
+(`crates/srtla-core/src/connection/mod.rs`):
+
+* **allowed to change** (not in `Frame`): `stall_gated`, `stall_latched_since_ms`,
+  `stall_recovery_since_ms`, `stall_gate_events`, `silence_pulled`, `silence_pull_heard_mark`,
+  `silence_pulls`, the cached `conn_timeout_ms` copy, and `quality_cache.{multiplier, last_calculated_ms}`;
+* **in `Frame`, proved unchanged**: `conn_id`, `connected`, `phase`, `window`, `in_flight_packets`,
+  `batch_sender` queue LENGTH (`queued`), `last_received`, `last_sent`, `last_ack_or_rtt_sample_ms`,
+  `reconnection.{connection_established_ms, startup_grace_deadline_ms}`, `stall_probe_counter`, `weak`,
+  `loss_degraded`, `cc_target_bps`, the smoothed RTT (value, `> 0`, `as u64`), `rtt.rtt_min_ms`,
+  `bitrate.current_bitrate_bps`, `congestion.{nak_count, last_nak_time_ms, nak_burst_count}`;
+* **outside `Frame` because absent from `SLink`** (the selection code has no access path to them in
+  the model; on the real code they are covered only by the harness monitor `frame`, see
+  `tools/props/C12.json`): `local_ip`, `label`, `packet_log` (contents), `highest_acked_seq`,
+  `last_keepalive_sent`, `cc_backing_off`;
+  `rtt.*` other than the two outputs above (`last_keepalive_sent_ms`, `waiting_for_keepalive_response`,
+  `last_rtt_measurement_ms`, the Kalman filter state, jitter / `prev_rtt_ms` / `rtt_avg_delta`,
+  fast/slow minima and their windows, `rtt_masd_ms`, `estimated_rtt_ms`, the sample filter);
+  `congestion.*` other than the three NAK fields (`last_window_increase_ms`,
+  `consecutive_acks_without_nak`, `fast_recovery_mode`, `fast_recovery_start_ms`,
+  `nak_burst_start_time_ms`); `bitrate.{bytes_sent_total, bytes_sent_window, last_rate_update_ms}`;
+  `reconnection.{last_reconnect_attempt_ms, reconnect_failure_count}`; the CONTENTS of `batch_sender`
+  (queued datagrams, their sequence numbers and queue times, `last_flush_ms`, the batch regime).
+
+`C12_frame_shell` below widens the frame to ALL of these, but only for the shell MODEL
+(`Model/Sys.lean` `runSelect`, validated against the real event loop by component `sys`): there the
+selection result is written back through `FLink.absorb`, which by construction writes only the ten
+"allowed" fields.  It is a statement about how the model is wired, not an independent proof about
+the Rust function. -/
+
+section shell
+open Srtla.Link Srtla.Sys
+
+/-- `l'` is `l` with (at most) the ten fields a routing decision may write overwritten; every other
+field of the full `SrtlaConnection` model — accounting core incl. packet log, keepalive stamp, probe
+counter, RTT tracker, bitrate tracker, reconnection state, batch queue contents, classifier / CC
+stamps — is identical. -/
+def SameUpToGuard (l' l : FLink F) : Prop :=
+  ∃ (sg : Bool) (la rs ge : Nat) (sp : Bool) (pm : Option Nat) (sps ct : Nat) (qm : F) (qa : Nat),
+    l' = { l with stallGated := sg, latchedSince := la, recoverySince := rs, gateEvents := ge,
+                  silencePulled := sp, pullMark := pm, silencePulls := sps, connTimeoutMs := ct,
+                  qualMult := qm, qualAt := qa }
+
+/-- **Frame, full-connection form (shell model).**  The shell's scheduling step
+(`select_connection_idx` on the live connections, `runSelect`) returns the same number of links in
+the same order; each is the old link up to the ten allowed fields; and no other component of the
+shell state (registration manager, sequence tracker, last pick, config …) changes. -/
+theorem C12_frame_shell (s : Sys F) (now : Nat) :
+    (runSelect s now).1.links.length = s.links.length ∧
+    (∀ (i : Nat) (l l' : FLink F), s.links[i]? = some l → (runSelect s now).1.links[i]? = some l' →
+      SameUpToGuard l' l) ∧
+    (runSelect s now).1.reg = s.reg ∧ (runSelect s now).1.trk = s.trk ∧
+    (runSelect s now).1.lastSelected = s.lastSelected ∧ (runSelect s now).1.clientKnown = s.clientKnown ∧
+    (runSelect s now).1.cfg = s.cfg ∧ (runSelect s now).1.critDeadline = s.critDeadline ∧
+    (runSelect s now).1.allFailedAt = s.allFailedAt ∧ (runSelect s now).1.failNext = s.failNext := by
+  have hlen := (C12_frame (s.links.map FLink.toSLink) s.lastSelected now s.cfg).1
+  rw [List.length_map] at hlen
+  refine ⟨?_, ?_, rfl, rfl, rfl, rfl, rfl, rfl, rfl, rfl⟩
+  · show ((s.links.zip (selectIdx (s.links.map FLink.toSLink) s.lastSelected now s.cfg).1).map _).length = _
+    rw [List.length_map, List.length_zip, hlen, Nat.min_self]
+  · intro i l l' hl hl'
+    change ((s.links.zip (selectIdx (s.links.map FLink.toSLink) s.lastSelected now s.cfg).1).map
+      fun p => p.1.absorb p.2)[i]? = some l' at hl'
+    rw [List.getElem?_map] at hl'
+    obtain ⟨⟨a, b⟩, hab, rfl⟩ := Option.map_eq_some_iff.1 hl'
+    have ha : s.links[i]? = some a := (List.getElem?_zip_eq_some.1 hab).1
+    rw [hl] at ha
+    cases ha
+    exact ⟨_, _, _, _, _, _, _, _, _, _, rfl⟩
+
+end shell
 
 /-! ## Non-vacuity -/
 
